@@ -111,6 +111,7 @@ func (fr *Frame) call0inner(instr ssa.Instruction, cc *ssa.CallCommon, st *State
 	for _, a := range cc.Args {
 		args = append(args, fr.val(a, st))
 	}
+	fr.curCallBlock = instr.Block()
 	fr.callsiteChecks(cc, args, st, reach, pos)
 	if _, isBuiltin := cc.Value.(*ssa.Builtin); !isBuiltin {
 		fr.countCall(fr.callName(cc, pos), st)
@@ -670,6 +671,9 @@ func (fr *Frame) runDefers(st *State, reach string) {
 		}
 		before := st.clone()
 		resT := d.cc.Signature().Results()
+		// call-site clauses apply to a deferred call at the moment it runs (with the arguments bound at the defer)
+		fr.curCallBlock = nil
+		fr.callsiteChecks(d.cc, d.args, st, r, d.cc.Pos())
 		if _, isBuiltin := d.cc.Value.(*ssa.Builtin); !isBuiltin {
 			fr.countCall(fr.callName(d.cc, d.cc.Pos()), st) // a deferred call counts when it runs
 			fr.countCall(fr.callQualName(d.cc.Pos()), st)
@@ -1155,7 +1159,24 @@ func (fr *Frame) callsiteChecks(cc *ssa.CallCommon, args []Val, st *State, reach
 				}
 			}
 		}
+		if fr.c.callsiteMatched == nil {
+			fr.c.callsiteMatched = map[*Clause]bool{}
+		}
+		fr.c.callsiteMatched[cl] = true
 		env := fr.env(st)
+		// prev(e) in a callsite clause: e at the head of the current iteration of the innermost loop around the call
+		if fr.curCallBlock != nil && fr.loops != nil {
+			var inner *Loop
+			for _, lp := range fr.loops.loops {
+				if lp.body[fr.curCallBlock] && (inner == nil || len(lp.body) < len(inner.body)) {
+					inner = lp
+				}
+			}
+			if inner != nil {
+				env.loopHead = fr.loopHeadState[inner]
+				env.loopEntry = fr.loopEntryState[inner]
+			}
+		}
 		for i := 0; i < sig.Params().Len() && i < len(args); i++ {
 			if n := sig.Params().At(i).Name(); n != "" && n != "_" {
 				v := args[i]
